@@ -338,6 +338,56 @@ def r6_pairing(repo, rep, cls):
                   f.qualname, '%s[%s] ~ %s.iloc[%s]' % (le, iv, norm(rbase), iv),
                   'the i-th geo label is taken from `%s` while the i-th time series is row i of `%s`: the two orders differ when input rows are not sorted by geo, so the wrong geo is reported and removed'
                   % (le, norm(rbase)), f.loc(ln.ast))
+  # zip(labels, rows): the same pairing without an index variable
+  def role(node_, e_):
+    x_ = rd.expand(node_, e_, depth=1)[0]
+    t_ = norm(x_)
+    m_ = re.fullmatch(r'(\w+)\.index(?:\.tolist\(\)|\.values|\.to_list\(\)|\.to_numpy\(\))?', t_)
+    if m_:
+      return ('labels', m_.group(1), t_)
+    m_ = re.fullmatch(r'(\w+)(?:\.values|\.to_numpy\([^)]*\)|\.iterrows\(\)|\.itertuples\([^)]*\))?', t_)
+    if m_:
+      # the table, possibly through a local holding its array
+      base_ = m_.group(1)
+      d_ = rd.single_def(node_, base_)
+      if d_ is not None and d_.how == 'assign' and d_.value is not None:
+        m2_ = re.fullmatch(r'(\w+)(?:\.values|\.to_numpy\([^)]*\))', norm(d_.value))
+        if m2_:
+          base_ = m2_.group(1)
+      return ('rows', base_, t_)
+    full_ = norm(rd.expand(node_, e_, depth=6, aliases=True)[0])
+    if re.search(r'\.unique\(\)|\.drop_duplicates\(', full_):
+      return ('appearance', None, full_)
+    return (None, None, t_)
+  zips = []
+  for n in g.nodes:
+    trees = []
+    if n.kind == 'for' and isinstance(n.ast.iter, ast.Call) and norm(n.ast.iter.func) == 'zip' and len(n.ast.iter.args) == 2:
+      trees.append(n.ast.iter)
+    if n.kind in ('stmt', 'return') and n.ast is not None and not isinstance(n.ast, (ast.FunctionDef, ast.ClassDef)):
+      for comp in ast.walk(n.ast):
+        if isinstance(comp, (ast.ListComp, ast.SetComp, ast.DictComp, ast.GeneratorExp)):
+          for gen in comp.generators:
+            if isinstance(gen.iter, ast.Call) and norm(gen.iter.func) == 'zip' and len(gen.iter.args) == 2:
+              trees.append(gen.iter)
+    for z in trees:
+      zips.append((n, z))
+  for n, z in zips:
+    ra, rb = role(n, z.args[0]), role(n, z.args[1])
+    kinds = {ra[0], rb[0]}
+    if kinds == {'labels', 'rows'}:
+      n_pairs += 1
+      lab, row = (ra, rb) if ra[0] == 'labels' else (rb, ra)
+      rep.check(lab[1] == row[1], 'R6/positional-pairing', 'zip pairs the labels and the rows of one table (%s)' % row[1], f.qualname, norm(z)[:100],
+                'labels of `%s` are paired by position with rows of `%s`: the two orders differ, so the wrong geo is reported and removed' % (lab[1], row[1]), f.loc(z))
+    elif 'appearance' in kinds and 'rows' in kinds:
+      n_pairs += 1
+      app, row = (ra, rb) if ra[0] == 'appearance' else (rb, ra)
+      rep.violation('R6/positional-pairing', f.qualname, norm(z)[:100],
+                    'geo labels in order of first appearance in the input rows (`%s`) are paired by position with the rows of the table `%s`, which are in sorted label order: '
+                    'when the input rows are not sorted by geo the wrong geo is reported and removed' % (app[2][:60], row[1]), f.loc(z))
+    elif kinds & {'labels', 'rows', 'appearance'}:
+      rep.undecided('R6/positional-pairing', norm(z)[:60], 'one side of the positional pairing is not recognised as labels or rows of a table', f.loc(z))
   rep.floor('positional label/row pairings', n_pairs, 1)
   # the geo-by-date table itself must be built by label (pivot), on every path: stacking per-geo values in row order
   # makes the series depend on the order of the input rows
